@@ -35,6 +35,17 @@ _INT_WIDTH = {"i8": 8, "u8": 8, "i16": 16, "u16": 16, "i32": 32, "u32": 32, "i64
               "usize": 64, "i128": 128, "u128": 128}
 
 
+def _delegates_to_sibling(cx, fn):
+    """an operator impl for KNumber / &KNumber that hands the work to another impl of the same operator for KNumber
+    (`impl Add for &KNumber { fn add(self, o) { *self + *o } }`)"""
+    for c in fn.calls():
+        t = cx.F.fns.get(c.resolved)
+        if t is not None and t is not fn and t.impl_trait == fn.impl_trait and t.method == fn.method and \
+                t.impl_self in ("KNumber", "&KNumber"):
+            return t
+    return None
+
+
 def rule_num_wrap(cx, tier):
     r = RuleResult("R-NUM-WRAP", "integer arithmetic of the number tower wraps by construction: the operator impls of "
                                  "KNumber (+ - * % unary-, pow) contain no overflow-checked integer arithmetic, use "
@@ -87,6 +98,8 @@ def rule_num_wrap(cx, tier):
                                       f"evaluated as `2 ^ 0`)", fn.file, line_of(fn, b.idx)))
         want = WRAP_OF.get(tr, "wrapping_pow")
         has = any((c.pretty or "").endswith("::" + want) for c in fn.calls())
+        if not has and tr != "Pow" and _delegates_to_sibling(cx, fn) is not None:
+            has = True           # the sibling impl it delegates to is an instance of its own
         if not has:
             verdict = "violation"
             others = sorted({(c.pretty or "").rsplit("::", 1)[-1] for c in fn.calls() if "wrapping_" in (c.pretty or "")})
@@ -112,6 +125,9 @@ def rule_div_float(cx, tier):
                 if st[0] == "a" and st[2][0] == "agg" and st[2][1][0] == "adt" and fn.crate.defs[st[2][1][1]] == KNUMBER:
                     variants.append(st[2][1][2])
         bad = [v for v in variants if v != "F64"]
+        if not variants and _delegates_to_sibling(cx, fn) is not None:
+            r.sample({"fn": fn.qual, "variants_built": "delegates to " + _delegates_to_sibling(cx, fn).qual})
+            continue
         if bad or not variants:
             r.add(Finding("R-DIV-FLOAT", fn.qual, "variant", f"Div::div builds KNumber::{bad[0] if bad else '?'}: "
                           f"`/` no longer always yields a float", fn.file, fn.line))
@@ -475,9 +491,11 @@ def rule_rem_zero(cx, tier):
         for c in fn.calls():
             t = cx.F.fns.get(c.resolved)
             if t is not None and t.impl_trait == "Rem" and t.impl_self in ("KNumber", "&KNumber"):
+                if fn.impl_trait == "Rem" and fn.impl_self in ("KNumber", "&KNumber"):
+                    continue          # the operator delegating to its by-value / by-reference sibling is not a use of it
                 sites.append((fn, c))
     r.analysed = {"rem_call_sites": len(sites)}
-    r.floor("call sites of KNumber % KNumber", len(sites), 2)
+    r.floor("call sites of KNumber % KNumber", len(sites), 1)
     for fn, c in sites:
         r.instances += 1
         r.nontrivial += 1
